@@ -911,6 +911,11 @@ func (f *FnEnc) call(c *ssa.CallCommon, v ssa.Value, pos token.Pos) Val {
 	if isLockNoop(name) {
 		return nil
 	}
+	if name == "sort.Search" && len(c.Args) == 2 {
+		if r, ok := f.sortSearch(c, hint); ok {
+			return r
+		}
+	}
 	args := f.argVals(c)
 	spec := e.R.forFunc(callee)
 	if spec != nil && spec.PreOnly {
@@ -1807,25 +1812,67 @@ func (f *FnEnc) builtin(b *ssa.Builtin, c *ssa.CallCommon, hint string, pos toke
 	return nil
 }
 
-// elemComps returns the components holding elements of a slice with element type t
-// (scalar leaves only; struct elements: each scalar field).
-func (e *Enc) elemComps(t types.Type) []*Comp {
-	var out []*Comp
-	if st := structOf(t); st != nil {
+// elemComp: one component holding (a leaf of) the elements of a slice, with the chain of
+// sub-object steps from an element reference to the reference the component is indexed by
+// (nested struct fields and array fields are sub-objects).
+type elemComp struct {
+	c    *Comp
+	subs []string // sub functions applied to the element reference, outermost last
+	invs []string // their inverses, in the same order
+}
+
+func (ec elemComp) at(elem string) string {
+	x := elem
+	for _, fn := range ec.subs {
+		x = "(" + fn + " " + x + ")"
+	}
+	return x
+}
+
+// elemOf: the element reference a component index belongs to (inverse of at).
+func (ec elemComp) elemOf(p string) string {
+	x := p
+	for i := len(ec.invs) - 1; i >= 0; i-- {
+		x = "(" + ec.invs[i] + " " + x + ")"
+	}
+	return x
+}
+
+// elemComps returns the components holding elements of a slice with element type t.
+func (e *Enc) elemComps(t types.Type) (out []elemComp) {
+	defer func() {
+		if r := recover(); r != nil {
+			if _, ok := r.(unsupported); !ok {
+				panic(r)
+			}
+			out = nil
+		}
+	}()
+	var walk func(t types.Type, subs, invs []string)
+	walk = func(t types.Type, subs, invs []string) {
+		st := structOf(t)
+		if st == nil {
+			for _, l := range e.leaves(t) {
+				out = append(out, elemComp{e.cellComp(t, l), subs, invs})
+			}
+			return
+		}
 		for i := 0; i < st.NumFields(); i++ {
 			ft := st.Field(i).Type()
 			if e.subObj(ft) {
-				return nil // nested struct elements: handled by havoc
+				// make sure the sub function is declared, and take its name
+				ref := e.subRef(t, i, Term{"0", SInt})
+				fn := strings.TrimSuffix(strings.TrimPrefix(ref.S, "("), " 0)")
+				inv := strings.Replace(fn, "|sub ", "|subinv ", 1)
+				walk(ft, append(append([]string{}, subs...), fn), append(append([]string{}, invs...), inv))
+				continue
 			}
 			for _, l := range e.leaves(ft) {
-				out = append(out, e.fieldComp(t, i, l))
+				out = append(out, elemComp{e.fieldComp(t, i, l), subs, invs})
 			}
 		}
-		return out
 	}
-	for _, l := range e.leaves(t) {
-		out = append(out, e.cellComp(t, l))
-	}
+	walk(t, nil, nil)
 	return out
 }
 
@@ -1860,17 +1907,29 @@ func (f *FnEnc) builtinAppend(c *ssa.CallCommon, hint string) Val {
 		f.st.Alloc = e.define("alloc", tAdd(f.st.Alloc, tInt(1)))
 		return r
 	}
-	for _, cp := range comps {
+	done := map[string]bool{}
+	for _, ec := range comps {
+		cp := ec.c
+		if done[cp.Name] {
+			// the same component reached through two paths (two fields of the same nested type):
+			// not expressible with one version per component
+			names := map[string]bool{}
+			e.allFieldCompNames(st.Elem(), names)
+			f.st = f.havocWrites(writeSet{names: names})
+			return r
+		}
+		done[cp.Name] = true
 		old := e.lookup(f.st, cp)
 		nv := e.freshConst(cp.Name+"'app", cp.Sort)
 		e.compTypingFact(cp, nv, f.st.Alloc)
 		// new cells: prefix copied from s, suffix copied from t, everything else unchanged
-		e.fact(Term{fmt.Sprintf("(forall ((i Int)) (! (=> (and (<= 0 i) (< i %s)) (= (select %s (elemref %s (idxadd %s i))) (select %s (elemref %s (idxadd %s i))))) :pattern ((elemref %s (idxadd %s i)))))",
-			s.Len.S, nv.S, r.Base.S, r.Off.S, old.S, s.Base.S, s.Off.S, r.Base.S, r.Off.S), SBool})
-		e.fact(Term{fmt.Sprintf("(forall ((j Int)) (! (=> (and (<= %s j) (< j (+ %s %s))) (= (select %s (elemref %s (idxadd %s j))) (select %s (elemref %s (idxadd %s (- j %s)))))) :pattern ((elemref %s (idxadd %s j)))))",
-			s.Len.S, s.Len.S, tl.S, nv.S, r.Base.S, r.Off.S, old.S, t.Base.S, t.Off.S, s.Len.S, r.Base.S, r.Off.S), SBool})
-		e.fact(Term{fmt.Sprintf("(forall ((p Int)) (! (=> (not (and (= (rtag p) 1) (= (elembase p) %s) (<= (+ %s %s) (elemidx p)) (< (elemidx p) (+ %s %s)))) (= (select %s p) (select %s p))) :pattern ((select %s p))))",
-			r.Base.S, r.Off.S, ite0(freshC, s.Len).S, r.Off.S, r.Len.S, nv.S, old.S, nv.S), SBool})
+		e.fact(Term{fmt.Sprintf("(forall ((i Int)) (! (=> (and (<= 0 i) (< i %s)) (= (select %s %s) (select %s %s))) :pattern ((elemref %s (idxadd %s i)))))",
+			s.Len.S, nv.S, ec.at(fmt.Sprintf("(elemref %s (idxadd %s i))", r.Base.S, r.Off.S)), old.S, ec.at(fmt.Sprintf("(elemref %s (idxadd %s i))", s.Base.S, s.Off.S)), r.Base.S, r.Off.S), SBool})
+		e.fact(Term{fmt.Sprintf("(forall ((j Int)) (! (=> (and (<= %s j) (< j (+ %s %s))) (= (select %s %s) (select %s %s))) :pattern ((elemref %s (idxadd %s j)))))",
+			s.Len.S, s.Len.S, tl.S, nv.S, ec.at(fmt.Sprintf("(elemref %s (idxadd %s j))", r.Base.S, r.Off.S)), old.S, ec.at(fmt.Sprintf("(elemref %s (idxadd %s (- j %s)))", t.Base.S, t.Off.S, s.Len.S)), r.Base.S, r.Off.S), SBool})
+		q := ec.elemOf("p")
+		e.fact(Term{fmt.Sprintf("(forall ((p Int)) (! (=> (not (and (= (rtag %s) 1) (= (elembase %s) %s) (<= (+ %s %s) (elemidx %s)) (< (elemidx %s) (+ %s %s)))) (= (select %s p) (select %s p))) :pattern ((select %s p))))",
+			q, q, r.Base.S, r.Off.S, ite0(freshC, s.Len).S, q, q, r.Off.S, r.Len.S, nv.S, old.S, nv.S), SBool})
 		f.st.H[cp.Name] = nv
 	}
 	return r
@@ -1903,17 +1962,77 @@ func (f *FnEnc) builtinCopy(c *ssa.CallCommon, hint string) Val {
 		f.st = f.havocWrites(writeSet{names: names})
 		return n
 	}
-	for _, cp := range comps {
+	done := map[string]bool{}
+	for _, ec := range comps {
+		if done[ec.c.Name] {
+			names := map[string]bool{}
+			e.allFieldCompNames(st.Elem(), names)
+			f.st = f.havocWrites(writeSet{names: names})
+			return n
+		}
+		done[ec.c.Name] = true
+	}
+	pBase, pOff := e.patConst(dst.Base), e.patConst(dst.Off)
+	for _, ec := range comps {
+		cp := ec.c
 		old := e.lookup(f.st, cp)
 		nv := e.freshConst(cp.Name+"'cpy", cp.Sort)
 		e.compTypingFact(cp, nv, f.st.Alloc)
-		e.fact(Term{fmt.Sprintf("(forall ((i Int)) (! (=> (and (<= 0 i) (< i %s)) (= (select %s (elemref %s (idxadd %s i))) (select %s (elemref %s (idxadd %s i))))) :pattern ((elemref %s (idxadd %s i)))))",
-			n.S, nv.S, dst.Base.S, dst.Off.S, old.S, src.Base.S, src.Off.S, dst.Base.S, dst.Off.S), SBool})
-		e.fact(Term{fmt.Sprintf("(forall ((p Int)) (! (=> (not (and (= (rtag p) 1) (= (elembase p) %s) (<= %s (elemidx p)) (< (elemidx p) (+ %s %s)))) (= (select %s p) (select %s p))) :pattern ((select %s p))))",
-			dst.Base.S, dst.Off.S, dst.Off.S, n.S, nv.S, old.S, nv.S), SBool})
+		e.fact(Term{fmt.Sprintf("(forall ((i Int)) (! (=> (and (<= 0 i) (< i %s)) (= (select %s %s) (select %s %s))) :pattern ((elemref %s (idxadd %s i)))))",
+			n.S, nv.S, ec.at(fmt.Sprintf("(elemref %s (idxadd %s i))", pBase.S, pOff.S)), old.S, ec.at(fmt.Sprintf("(elemref %s (idxadd %s i))", src.Base.S, src.Off.S)), pBase.S, pOff.S), SBool})
+		// the destination is itself a re-slice x[d:] of a slice with offset O: state the same fact
+		// in terms of indices of x, so that it is found from terms written as x[j]
+		dOff := dst.Off
+		if def, ok := e.defOf[dOff.S]; ok {
+			dOff = Term{def, SInt}
+		}
+		if o, d, ok := splitPlus(dOff); ok {
+			po := e.patConst(o)
+			e.fact(Term{fmt.Sprintf("(forall ((j Int)) (! (=> (and (<= %s j) (< j (+ %s %s))) (= (select %s %s) (select %s %s))) :pattern ((elemref %s (idxadd %s j)))))",
+				d.S, d.S, n.S, nv.S, ec.at(fmt.Sprintf("(elemref %s (idxadd %s j))", pBase.S, po.S)), old.S, ec.at(fmt.Sprintf("(elemref %s (idxadd %s (- j %s)))", src.Base.S, src.Off.S, d.S)), pBase.S, po.S), SBool})
+		}
+		q := ec.elemOf("p")
+		e.fact(Term{fmt.Sprintf("(forall ((p Int)) (! (=> (not (and (= (rtag %s) 1) (= (elembase %s) %s) (<= %s (elemidx %s)) (< (elemidx %s) (+ %s %s)))) (= (select %s p) (select %s p))) :pattern ((select %s p))))",
+			q, q, dst.Base.S, dst.Off.S, q, q, dst.Off.S, n.S, nv.S, old.S, nv.S), SBool})
 		f.st.H[cp.Name] = nv
 	}
 	return n
+}
+
+// splitPlus: t = (+ a b) at top level.
+func splitPlus(t Term) (a, b Term, ok bool) {
+	s := t.S
+	if !strings.HasPrefix(s, "(+ ") || !strings.HasSuffix(s, ")") {
+		return
+	}
+	body := s[3 : len(s)-1]
+	depth, quoted := 0, false
+	var parts []string
+	start := 0
+	for i, r := range body {
+		switch r {
+		case '|':
+			quoted = !quoted
+		case '(':
+			if !quoted {
+				depth++
+			}
+		case ')':
+			if !quoted {
+				depth--
+			}
+		case ' ':
+			if depth == 0 && !quoted {
+				parts = append(parts, body[start:i])
+				start = i + 1
+			}
+		}
+	}
+	parts = append(parts, body[start:])
+	if len(parts) != 2 {
+		return
+	}
+	return Term{parts[0], SInt}, Term{parts[1], SInt}, true
 }
 
 // findNonNilGlobals: package-level variables of pointer/interface type that are assigned only by
@@ -2355,4 +2474,49 @@ func freeVarBinding(fv *ssa.FreeVar) ssa.Value {
 		}
 	}
 	return found
+}
+
+
+// sortSearch: sort.Search(n, pred) with a side-effect-free closure. Whatever pred is, the binary
+// search returns an index r in [0, n] with (r == 0 or !pred(r-1)) and (r == n or pred(r)); both
+// instances of the predicate are obtained by running the closure's body at r-1 and at r.
+func (f *FnEnc) sortSearch(c *ssa.CallCommon, hint string) (Val, bool) {
+	e := f.e
+	cl, ok := f.valOrNil(c.Args[1]).(ClosureV)
+	if !ok || cl.Fn == nil {
+		return nil, false
+	}
+	ws := writeSet{names: map[string]bool{}}
+	for _, b := range cl.Fn.Blocks {
+		for _, ins := range b.Instrs {
+			e.instrWrites(ins, &ws, 0, map[*ssa.Function]bool{})
+		}
+	}
+	if ws.all || len(ws.names) > 0 || ws.extern {
+		return nil, false
+	}
+	n := f.term(c.Args[0])
+	r := e.freshConst(hint+".search", SInt)
+	f.assume(tAnd(tLe(tInt(0), r), tOr(tLe(r, n), tAnd(tLt(n, tInt(0)), tEq(r, tInt(0))))))
+	evalAt := func(x Term, guard Term) (after Term, t Term, ok bool) {
+		saveReach, saveSt := f.reach, f.st
+		f.reach = e.define("search.at", tAnd(f.reach, guard))
+		f.st = f.st.clone()
+		res := f.inline(cl.Fn, nil, []Val{x}, cl.Bindings)
+		after = f.reach
+		f.reach, f.st = saveReach, saveSt
+		t, ok = res.(Term)
+		return after, t, ok && t.Sort == SBool
+	}
+	a1, t1, ok1 := evalAt(e.define("search.prev", tSub(r, tInt(1))), tLt(tInt(0), r))
+	a2, t2, ok2 := evalAt(r, tLt(r, n))
+	if !ok1 || !ok2 {
+		return nil, false
+	}
+	// sort.Search returned, so the two calls of the predicate it made at these indices returned
+	// normally: what holds after them (callee postconditions, passed run-time checks) is a fact
+	f.assume(tImp(tLt(tInt(0), r), tAnd(a1, tNot(t1))))
+	f.assume(tImp(tLt(r, n), tAnd(a2, t2)))
+	f.e.abstracted[fnDisplayName(f.fn)+": sort.Search modelled by its two boundary instances of the predicate"] = true
+	return r, true
 }
